@@ -2,7 +2,7 @@ import A2lVerif.Lemmas.TreeWriter
 /-!
 # C05 — layout preservation and edit locality (the writer's side)
 
-Property theorems only; model in Model/Tree.lean (`addWhitespace`, `emitGroup`, `addGroup`, `tagLe`, mirroring `writer.rs`
+Property theorems only; model in Model/Tree.lean (`addWhitespace`, `addGroup`, `tagLe`, mirroring `writer.rs`
 `add_whitespace`, `add_group`, `sort_function`, `apply_position_restrictions`). Quantification: every group of tagged
 items of any size, every indent, every item.
 -/
@@ -99,7 +99,8 @@ def chunkC (indent : Nat) (item : TagInfo) : List Char :=
 /-- **with comments**: the output of any group without position-restricted items is the concatenation of the
     per-item contributions in sorted order; comments are written verbatim behind their recorded line breaks -/
 theorem addGroup_chunks_comments (indent : Nat) (g : List TagInfo) (hp : ∀ x ∈ g, x.pos = none) :
-    addGroup indent g = (g.mergeSort tagLe).flatMap (chunkC indent) := sorry
+    addGroup indent g = (g.mergeSort tagLe).flatMap (chunkC indent) :=
+  addGroup_noPos indent g hp
 
 /-! ## non-vacuity -/
 def sampleItem : TagInfo :=
